@@ -19,7 +19,7 @@ from .core import Relation, err_kind
 
 PROP = "C04"
 CLAIMED = False
-COQ_MODULES = ["C04_Check", "C04_Proofs", "C04_ProofsSet", "C04_ProofsFile"]
+COQ_MODULES = ["C04_Check", "C04_Proofs", "C04_ProofsSet", "C04_ProofsFile", "C04_ProofsSpec", "C04_ProofsAnc", "C04_Legacy"]
 PROPERTY_MODULE = "C04_Property"
 ALLOWED_AXIOMS = []
 RULE = (
@@ -177,7 +177,7 @@ class Api(Relation):
     coq_case_type = "acase"
     coq_model = "model_api"
     coq_imports = ["Tracts", "C04_Model"]
-    budget = {"quick": 900, "thorough": 15000}
+    budget = {"quick": 2000, "thorough": 20000}
     max_cases_per_shard = 150
     anchors = [
         ("haptools/data/haplotypes.py", "Haplotype.transform"),
@@ -482,7 +482,7 @@ def write_pgen(prefix, samples, variants, data):
     return prefix + ".pgen"
 
 
-def write_hap(path, haps, anc, indexed):
+def write_hap(path, haps, anc, indexed, layout="HV"):
     import pysam
 
     lines = []
@@ -498,8 +498,17 @@ def write_hap(path, haps, anc, indexed):
             lines.append(f"H\t{h['chrom']}\t{h['start']}\t{h['end']}\t{h['id']}" + (f"\t{h['anc']}" if anc else ""))
             for v in h["vars"]:
                 vlines.append(f"V\t{h['id']}\t{v[2]}\t{v[3]}\t{v[0]}\t{v[1]}")
+    if layout == "V-first" and not indexed:
+        body = [l for l in lines if l.startswith("#")] + vlines + [l for l in lines if not l.startswith("#")]
+    elif layout == "interleaved" and not indexed:
+        body = [l for l in lines if l.startswith("#")]
+        for h in haps:
+            body += [l for l in lines if not l.startswith("#") and l.split("\t")[4] == h["id"]]
+            body += [l for l in vlines if l.split("\t")[1] == h["id"]]
+    else:
+        body = lines + vlines
     with open(path, "w") as f:
-        f.write("\n".join(lines + vlines) + "\n")
+        f.write("\n".join(body) + "\n")
     if indexed:
         pysam.tabix_index(path, seq_col=1, start_col=2, end_col=3, force=True)  # makes path.gz + .tbi, removes path
         return path + ".gz"
@@ -589,7 +598,7 @@ class File(Relation):
     coq_case_type = "fcase"
     coq_model = "model_file"
     coq_imports = ["Tracts", "C04_Model"]
-    budget = {"quick": 110, "thorough": 2500}
+    budget = {"quick": 260, "thorough": 3000}
     max_cases_per_shard = 120
     timeout_per_case = 180
     anchors = [
@@ -678,6 +687,13 @@ class File(Relation):
             haps = [dict(h, vars=sorted(h["vars"], key=lambda v: (v[2], v[3], v[0]))) for h in haps]
         else:
             haps = [haps[i] for i in rng.permutation(len(haps))]
+            if rng.random() < 0.06:
+                # a haplotype without variants (vacuously present everywhere); only in plain files: the indexed
+                # reader cannot fetch the V lines of such a haplotype (reported as a candidate finding for C06/C11)
+                haps.insert(int(rng.integers(0, len(haps) + 1)),
+                            {"id": "HE", "chrom": variants[0][1], "start": 3, "end": 4,
+                             "anc": (labels[0] if labels else None), "vars": [], "rep": False})
+        layout = ["HV", "interleaved", "V-first"][int(rng.integers(0, 3))]
         # malformed stream
         r = rng.random()
         if use_anc and r < 0.05:
@@ -705,7 +721,7 @@ class File(Relation):
             rr["out"] = outs[(k + i) % 2]
             rr["cli"] = cli
         return {"samples": samples, "vars": variants, "data": data, "haps": haps, "indexed": indexed, "region": region,
-                "ids": ids, "samp": samp, "anc": anc, "runs": runs, "kind": kind}
+                "ids": ids, "samp": samp, "anc": anc, "runs": runs, "kind": kind, "layout": layout}
 
     def generate(self, rng, n, tier):
         return [self._case(rng, k) for k in range(n)]
@@ -745,7 +761,7 @@ class File(Relation):
         found, sel = self._wanted_found(inp)
         if run["fmt"] == "pgen" and (not found or not sel):
             return {"skipped": "pgen-empty-match"}
-        hapf = write_hap(os.path.join(d, "h.hap"), inp["haps"], use_anc, inp["indexed"])
+        hapf = write_hap(os.path.join(d, "h.hap"), inp["haps"], use_anc, inp["indexed"], inp.get("layout", "HV"))
         if run["fmt"] == "vcf":
             pop = pop_matrix(inp) if run["src"] == "pop" else None
             if pop is not None and any(x is None for s in pop for c in s for x in c):
@@ -757,12 +773,42 @@ class File(Relation):
             write_bp(os.path.join(d, "g.bp"), anc["bp_order"], anc["tracts"])
         outf = os.path.join(d, "out." + run["out"])
         reg = region_str(inp["region"])
+        # what the run reports about variants it could not find (any WARNING+ record naming one of them)
+        import logging
+        import re
+
+        msgs = []
+
+        class Cap(logging.Handler):
+            def emit(self, rec):
+                if rec.levelno >= logging.WARNING:
+                    msgs.append(rec.getMessage())
+
+        fid = {v[0] for v in found}
+        absent = {v[0] for h in sel if not h["rep"] for v in h["vars"] if v[0] not in fid}
+        omitted = {h["id"] for h in sel if not h["rep"] and any(v[0] not in fid for v in h["vars"])}
+        lg = logging.getLogger("haptools.transform")
+        cap = Cap()
+        lg.addHandler(cap)
+        try:
+            return self._run_two(inp, run, gtf, hapf, outf, reg, use_anc, msgs, absent | omitted)
+        finally:
+            lg.removeHandler(cap)
+
+    def _run_two(self, inp, run, gtf, hapf, outf, reg, use_anc, msgs, names):
+        from pathlib import Path
+        import re
+
+        def warned():
+            pat = re.compile(r"variant\(?s?\)? .*(could not be found|absent|missing|not found)", re.I)
+            return any(pat.search(m) or any(n in m for n in names) for m in msgs)
+
         try:
             if run["cli"]:
                 from click.testing import CliRunner
                 from haptools.__main__ import main
 
-                args = ["transform", gtf, hapf, "-o", outf, "-v", "CRITICAL"]
+                args = ["transform", gtf, hapf, "-o", outf, "-v", "WARNING"]
                 if reg:
                     args += ["--region", reg]
                 for s in inp["samp"] or []:
@@ -775,20 +821,21 @@ class File(Relation):
                 if res.exception is not None and not isinstance(res.exception, SystemExit):
                     raise res.exception
                 if res.exit_code != 0:
-                    return {"err": 10, "cls": f"exit {res.exit_code}", "msg": res.output[-300:]}
+                    return {"err": 10, "cls": f"exit {res.exit_code}", "msg": res.output[-300:], "warned": warned()}
             else:
+                from haptools.logging import getLogger
                 from haptools.transform import transform_haps
 
                 transform_haps(Path(gtf), Path(hapf), reg, set(inp["samp"]) if inp["samp"] is not None else None,
                                set(inp["ids"]) if inp["ids"] is not None else None, None, False, use_anc, None,
-                               Path(outf), _log())
+                               Path(outf), getLogger("transform", "WARNING"))
         except Exception as e:  # noqa
-            return {"err": err_kind(e), "cls": type(e).__name__, "msg": str(e)[:200]}
+            return {"err": err_kind(e), "cls": type(e).__name__, "msg": str(e)[:200], "warned": warned()}
         try:
             out = read_vcf_out(outf) if run["out"] == "vcf" else read_pgen_out(outf)
         except Exception as e:  # noqa
-            return {"unreadable": f"{type(e).__name__}: {e}"[:300]}
-        return {"ok": out}
+            return {"unreadable": f"{type(e).__name__}: {e}"[:300], "warned": warned()}
+        return {"ok": out, "warned": warned()}
 
     def _tinput(self, inp, run, I):
         gv = L.lst(inp["vars"], lambda v: f"(mkgv {L.z(I(v[0]))} {L.z(I(v[1]))} {L.z(v[2])} {L.zl([I(a) for a in v[3]])})")
@@ -827,7 +874,7 @@ class File(Relation):
                 ot = f"(Err {L.z(o['err'])})"
             else:
                 ot = "(Err 96)"  # output unreadable: neither the model's answer nor an allowed failure
-            terms.append(f"(mkf {t} {ot})")
+            terms.append(f"(mkf {t} {ot} {L.b(o.get('warned', False))})")
         return terms
 
     # ---- bookkeeping
@@ -867,7 +914,10 @@ class File(Relation):
         return "haplotype-with-absent-variant" in self._features(inp)
 
     def classes(self, inp, obs):
-        out = [inp["kind"].split("+")[0], "indexed-hap" if inp["indexed"] else "plain-hap"] + self._features(inp)
+        out = [inp["kind"].split("+")[0], "indexed-hap" if inp["indexed"] else f"plain-hap-{inp.get('layout', 'HV')}"] \
+            + self._features(inp)
+        if any(not h["rep"] and not h["vars"] for h in inp["haps"]):
+            out.append("haplotype-without-variants")
         if "+" in inp["kind"]:
             out.append(inp["kind"].split("+")[1])
         if isinstance(obs, dict) and "runs" in obs:
@@ -901,7 +951,8 @@ class File(Relation):
                     continue
                 anc = inp["anc"]
                 if anc:
-                    anc = dict(anc, bp_order=[x for x in anc["bp_order"] if x != name])
+                    anc = dict(anc, bp_order=[x for x in anc["bp_order"] if x != name],
+                               tracts={k: v for k, v in anc["tracts"].items() if k != name})
                 yield dict(inp, samples=inp["samples"][:s] + inp["samples"][s + 1:],
                            data=inp["data"][:s] + inp["data"][s + 1:], anc=anc)
         used = {v[0] for h in haps for v in h["vars"]}
